@@ -3,15 +3,18 @@ Lemmas.Sim — vocabulary and loop lemmas for the forward simulation (C01): the 
 generated node is related to the reference semantics `spec`.
 
 * `Rel rt rs`     : a typed result `rt` shows the outcome `rs` of the Spec (verdict, cursor, stack).
-* `Ev T rs`       : the fuel-indexed typed computation `T` is *eventually constant* with a result
+* `EvRel T rs`       : the fuel-indexed typed computation `T` is *eventually constant* with a result
                     related to `rs` (so two such facts combine by adding their thresholds; no loop
                     monotonicity lemma is needed downstream).
 * small facts about `gen`: rule table, `indexOf`, flag invariant S5, built-ins, `Skipped`.
+* the hypothesis on WHITESPACE / COMMENT: `SkipRulesAtomic`, the weaker `SkipRulesAtomicLike`
+  (`spec_simple_na`: a simple body never consults the atomicity; `spec_body_flag`: what replaces S5).
 * loops: `repLoop_sim` (typed `repLoop` vs `specRepLoop`).
 -/
 import PestTyped.Model.Spec
 import PestTyped.Model.Gen
 import PestTyped.Lemmas.Mono
+import PestTyped.Lemmas.SkipLike
 namespace PestTyped
 
 /-! ### the simulation relation -/
@@ -75,27 +78,27 @@ theorem Rel.forget {α} {rt : R α} {rs : SR} (h : Rel rt rs) : Rel rt.forget rs
 /-! ### eventually constant typed computations -/
 
 /-- From some fuel on, `T` returns one and the same result, which shows the Spec outcome `rs`. -/
-def Ev {α} (T : Nat → R α) (rs : SR) : Prop :=
+def EvRel {α} (T : Nat → R α) (rs : SR) : Prop :=
   ∃ n0 r, Rel r rs ∧ ∀ n, n0 ≤ n → T n = r
 
-theorem Ev.mk_fail {α} {T : Nat → R α} (n0 : Nat) (m : M) (h : ∀ n, n0 ≤ n → T n = .fail m) : Ev T .fail :=
+theorem EvRel.mk_fail {α} {T : Nat → R α} (n0 : Nat) (m : M) (h : ∀ n, n0 ≤ n → T n = .fail m) : EvRel T .fail :=
   ⟨n0, .fail m, ⟨m, rfl⟩, h⟩
 
-theorem Ev.mk_ok {α} {T : Nat → R α} (n0 : Nat) (i : Inp) (m : M) (v : α)
-    (h : ∀ n, n0 ≤ n → T n = .ok i m v) : Ev T (.ok i m.stk) :=
+theorem EvRel.mk_ok {α} {T : Nat → R α} (n0 : Nat) (i : Inp) (m : M) (v : α)
+    (h : ∀ n, n0 ≤ n → T n = .ok i m v) : EvRel T (.ok i m.stk) :=
   ⟨n0, .ok i m v, ⟨m, v, rfl, rfl⟩, h⟩
 
-theorem Ev.mk_ok' {α} {T : Nat → R α} {S : List Sp} (n0 : Nat) (i : Inp) (m : M) (v : α) (hs : m.stk = S)
-    (h : ∀ n, n0 ≤ n → T n = .ok i m v) : Ev T (.ok i S) :=
+theorem EvRel.mk_ok' {α} {T : Nat → R α} {S : List Sp} (n0 : Nat) (i : Inp) (m : M) (v : α) (hs : m.stk = S)
+    (h : ∀ n, n0 ≤ n → T n = .ok i m v) : EvRel T (.ok i S) :=
   ⟨n0, .ok i m v, ⟨m, v, rfl, hs⟩, h⟩
 
-theorem Ev.fail {α} {T : Nat → R α} {rs : SR} (h : Ev T rs) (hrs : rs = .fail) :
+theorem EvRel.fail {α} {T : Nat → R α} {rs : SR} (h : EvRel T rs) (hrs : rs = .fail) :
     ∃ n0 m, ∀ n, n0 ≤ n → T n = .fail m := by
   subst hrs
   obtain ⟨n0, r, ⟨m, rfl⟩, hc⟩ := h
   exact ⟨n0, m, hc⟩
 
-theorem Ev.ok {α} {T : Nat → R α} {rs : SR} {i1 : Inp} {S1 : List Sp} (h : Ev T rs) (hrs : rs = .ok i1 S1) :
+theorem EvRel.ok {α} {T : Nat → R α} {rs : SR} {i1 : Inp} {S1 : List Sp} (h : EvRel T rs) (hrs : rs = .ok i1 S1) :
     ∃ n0 t v, ∀ n, n0 ≤ n → T n = .ok i1 ⟨S1, t⟩ v := by
   subst hrs
   obtain ⟨n0, r, ⟨m, v, rfl, hs⟩, hc⟩ := h
@@ -105,19 +108,19 @@ theorem Ev.ok {α} {T : Nat → R α} {rs : SR} {i1 : Inp} {S1 : List Sp} (h : E
     subst hs
     exact ⟨n0, trk, v, hc⟩
 
-theorem Ev.congr {α} {T T' : Nat → R α} {rs : SR} (h : Ev T rs) (hT : ∀ n, T' n = T n) : Ev T' rs := by
+theorem EvRel.congr {α} {T T' : Nat → R α} {rs : SR} (h : EvRel T rs) (hT : ∀ n, T' n = T n) : EvRel T' rs := by
   obtain ⟨n0, r, hr, hc⟩ := h
   exact ⟨n0, r, hr, fun n hn => by rw [hT]; exact hc n hn⟩
 
-/-- An `Ev` fact gives one fuel at which the typed result is related (and not out of fuel). -/
-theorem Ev.exists {α} {T : Nat → R α} {rs : SR} (h : Ev T rs) : ∃ n, Rel (T n) rs := by
+/-- An `EvRel` fact gives one fuel at which the typed result is related (and not out of fuel). -/
+theorem EvRel.exists {α} {T : Nat → R α} {rs : SR} (h : EvRel T rs) : ∃ n, Rel (T n) rs := by
   obtain ⟨n0, r, hr, hc⟩ := h
   exact ⟨n0, by rw [hc n0 (Nat.le_refl _)]; exact hr⟩
 
 /-- For `parse`, one related fuel is enough (fuel monotonicity S1). -/
-theorem Ev.of_parse {G : NodeGrammar} {uni : Uni} {inh : Bool} {nd : Node} {i : Inp} {m : M} {rs : SR}
+theorem EvRel.of_parse {G : NodeGrammar} {uni : Uni} {inh : Bool} {nd : Node} {i : Inp} {m : M} {rs : SR}
     (n : Nat) (h : Rel (parse G uni n inh nd i m) rs) (hne : rs ≠ .oof) :
-    Ev (fun n' => parse G uni n' inh nd i m) rs := by
+    EvRel (fun n' => parse G uni n' inh nd i m) rs := by
   refine ⟨n, parse G uni n inh nd i m, h, fun n' hn => ?_⟩
   have := parse_mono (g := G) (uni := uni) (n := n) (inh := inh) (node := nd) (i := i) (m := m) rfl
     (h.ne_oof hne) (n' - n)
@@ -133,7 +136,7 @@ theorem gen_rule_succ (g : PGrammar) (k : Nat) : (gen g).rule? (k+1) = (g[k]?).m
 
 theorem gen_skipped (g : PGrammar) : (gen g).skipped = genSkipped g := rfl
 
-theorem indexOf_go_spec (name : String) : ∀ (l : List PRule) (k0 k : Nat),
+theorem indexOf_go_sound (name : String) : ∀ (l : List PRule) (k0 k : Nat),
     PGrammar.indexOf.go name l k0 = some k → k0 ≤ k ∧ ∃ r, l[k - k0]? = some r ∧ r.name = name := by
   intro l
   induction l with
@@ -155,7 +158,7 @@ theorem indexOf_go_spec (name : String) : ∀ (l : List PRule) (k0 k : Nat),
 
 theorem indexOf_spec {g : PGrammar} {name : String} {k : Nat} (h : g.indexOf name = some k) :
     ∃ r, g[k]? = some r ∧ r.name = name := by
-  obtain ⟨_, r, hr, hn⟩ := indexOf_go_spec name g 0 k h
+  obtain ⟨_, r, hr, hn⟩ := indexOf_go_sound name g 0 k h
   exact ⟨r, by simpa using hr, hn⟩
 
 theorem find?_of_indexOf {g : PGrammar} {name : String} {k : Nat} (h : g.indexOf name = some k) :
@@ -169,7 +172,8 @@ theorem find?_of_indexOf_none {g : PGrammar} {name : String} (h : g.indexOf name
 /-- WHITESPACE / COMMENT are declared atomic (`@`) or compound-atomic (`$`) — or are not defined.
 (pest forces the bodies of rules with these names to be atomic whatever their declared kind;
 pest-typed gives them their declared kind: known finding F-WS.  Under this hypothesis the two
-agree.) -/
+agree.)  The simulations are proved under the WEAKER `SkipRulesAtomicLike` (Lemmas/SkipLike.lean,
+`SkipRulesAtomic.like` below); this stronger form is kept for reference and for `flag_invariant`. -/
 def SkipRulesAtomic (g : PGrammar) : Prop :=
   ∀ r ∈ g, (r.name = "WHITESPACE" ∨ r.name = "COMMENT") → (r.kind = .atomic ∨ r.kind = .compoundAtomic)
 
@@ -182,6 +186,91 @@ theorem flag_invariant {g : PGrammar} (hws : SkipRulesAtomic g) {r : PRule} (hr 
   · simp only [bodyNa, hn, if_false]
     cases r.kind <;> rfl
 
+/-! ### the weaker hypothesis `SkipRulesAtomicLike` (Lemmas/SkipLike.lean) -/
+
+/-- `SkipRulesAtomic` (every rule named WHITESPACE / COMMENT is `@` / `$`) implies
+`SkipRulesAtomicLike` (the rule such a name resolves to is `@` / `$` or has a simple body). -/
+theorem SkipRulesAtomic.like {g : PGrammar} (h : SkipRulesAtomic g) : SkipRulesAtomicLike g := by
+  intro nm r hnm hf
+  left
+  cases hk : g.indexOf nm with
+  | none => rw [find?_of_indexOf_none hk] at hf; cases hf
+  | some k =>
+    obtain ⟨r', hr', hn'⟩ := indexOf_spec hk
+    rw [find?_of_indexOf hk, hr'] at hf
+    injection hf with hf
+    subst hf
+    exact h r' (List.mem_of_getElem? hr') (by rw [hn']; exact hnm)
+
+/-- In a simple body (no sequence, no repetition, only built-in names) the Spec never consults the
+atomicity: same fuel, same answer under any two atomicities. -/
+theorem spec_simple_na (g : PGrammar) (uni : Uni) : ∀ (n : Nat) (e : PExpr), SimpleSkipBody g e →
+    ∀ (na na' : Bool) (i : Inp) (S : List Sp), spec g uni n na e i S = spec g uni n na' e i S := by
+  intro n
+  induction n with
+  | zero => intro e _ na na' i S; rfl
+  | succ n ih =>
+    intro e he na na' i S
+    cases e with
+    | str s => simp only [spec]
+    | insens s => simp only [spec]
+    | range lo hi => simp only [spec]
+    | ident name =>
+      simp only [SimpleSkipBody] at he
+      have hidx : g.indexOf name = none := by
+        have := he.1
+        simp only [PGrammar.defines] at this
+        cases hx : g.indexOf name with
+        | none => rfl
+        | some k => rw [hx] at this; cases this
+      simp only [spec, find?_of_indexOf_none hidx]
+    | peekSlice a b => simp only [spec]
+    | posPred e => simp only [SimpleSkipBody] at he; simp only [spec]; rw [ih e he na na']
+    | negPred e => simp only [SimpleSkipBody] at he; simp only [spec]; rw [ih e he na na']
+    | seq a b => simp only [SimpleSkipBody] at he
+    | choice a b =>
+      simp only [SimpleSkipBody] at he
+      simp only [spec]
+      rw [ih a he.1 na na', ih b he.2 na na']
+    | opt e => simp only [SimpleSkipBody] at he; simp only [spec]; rw [ih e he na na']
+    | rep e => simp only [SimpleSkipBody] at he
+    | repOnce e => simp only [SimpleSkipBody] at he
+    | repExact e k => simp only [SimpleSkipBody] at he
+    | repMin e k => simp only [SimpleSkipBody] at he
+    | repMax e k => simp only [SimpleSkipBody] at he
+    | repMinMax e k l => simp only [SimpleSkipBody] at he
+    | skip needles => simp only [spec]
+    | push e => simp only [SimpleSkipBody] at he; simp only [spec]; rw [ih e he na na']
+    | restoreOnErr e => simp only [SimpleSkipBody] at he; simp only [spec]; exact ih e he na na' i S
+
+/-- Flag invariant S5 under the weaker hypothesis: for the rule a name resolves to, either the static
+skip flag of the body evaluates to the Spec's dynamic atomicity inside the body, or the body is simple
+(a WHITESPACE / COMMENT rule declared normal, silent or `!`), and then the atomicity is irrelevant. -/
+theorem flag_invariant_like {g : PGrammar} (hws : SkipRulesAtomicLike g) {name : String} {k : Nat} {r : PRule}
+    (hidx : g.indexOf name = some k) (hr : g[k]? = some r) (na : Bool) :
+    (atomFlag (kindAtomicity r.kind)).eval na = bodyNa name r.kind na ∨ SimpleSkipBody g r.expr := by
+  by_cases hn : name = "WHITESPACE" ∨ name = "COMMENT"
+  · have hf : g.find? name = some r := by rw [find?_of_indexOf hidx, hr]
+    rcases hws name r hn hf with (hk | hk) | hs
+    · left; simp [bodyNa, hn, hk, kindAtomicity, atomFlag, Flag.eval]
+    · left; simp [bodyNa, hn, hk, kindAtomicity, atomFlag, Flag.eval]
+    · right; exact hs
+  · left
+    simp only [bodyNa, hn, if_false]
+    cases r.kind <;> rfl
+
+/-- What both simulations use: the Spec's run of the body of the rule `name` resolves to, under the
+atomicity pest gives it (`bodyNa`), is its run under the atomicity the typed parser's static flag
+evaluates to. -/
+theorem spec_body_flag {g : PGrammar} (hws : SkipRulesAtomicLike g) {name : String} {k : Nat} {r : PRule}
+    (hidx : g.indexOf name = some k) (hr : g[k]? = some r) (uni : Uni) (n : Nat) (na : Bool) (i : Inp)
+    (S : List Sp) :
+    spec g uni n (bodyNa name r.kind na) r.expr i S =
+      spec g uni n ((atomFlag (kindAtomicity r.kind)).eval na) r.expr i S := by
+  rcases flag_invariant_like hws hidx hr na with h | h
+  · rw [h]
+  · exact spec_simple_na g uni n r.expr h _ _ i S
+
 /-! ### repetition loops -/
 
 /-- Typed `repLoop` against `specRepLoop`: if every typed unit is eventually related to the Spec's
@@ -190,10 +279,10 @@ typed loop is eventually related to the Spec's loop.  The typed unit runs under 
 which is what makes the stack after a failed iteration the Spec's (immutable) one. -/
 theorem repLoop_sim {α} (U : Nat → Nat → Inp → M → R α) (u : Nat → Inp → List Sp → SR) (min : Nat)
     (mx : Option Nat)
-    (hU : ∀ idx i S trk, u idx i S ≠ .oof → Ev (fun n => U n idx i ⟨S, trk⟩) (u idx i S)) :
+    (hU : ∀ idx i S trk, u idx i S ≠ .oof → EvRel (fun n => U n idx i ⟨S, trk⟩) (u idx i S)) :
     ∀ (b : Nat) (B : Nat → Nat), (∀ k, ∃ n0, ∀ n, n0 ≤ n → k ≤ B n) → ∀ idx i S trk acc,
       specRepLoop u min mx b idx i S ≠ .oof →
-      Ev (fun n => repLoop (U n) min mx (B n) idx i ⟨S, trk⟩ acc) (specRepLoop u min mx b idx i S) := by
+      EvRel (fun n => repLoop (U n) min mx (B n) idx i ⟨S, trk⟩ acc) (specRepLoop u min mx b idx i S) := by
   intro b
   induction b with
   | zero => intro B hB idx i S trk acc hne; exact absurd rfl hne
@@ -206,13 +295,13 @@ theorem repLoop_sim {α} (U : Nat → Nat → Inp → M → R α) (u : Nat → I
     · simp only [hmax, if_true]
       by_cases hlt : idx < min
       · simp only [hlt, if_true]
-        refine Ev.mk_fail nB ⟨S, trk⟩ (fun n hn => ?_)
+        refine EvRel.mk_fail nB ⟨S, trk⟩ (fun n hn => ?_)
         obtain ⟨k, hk⟩ := hsucc n hn
         show repLoop (U n) min (some idx) (B n) idx i ⟨S, trk⟩ acc = _
         rw [hk]
         simp only [repLoop, if_true, hlt]
       · simp only [hlt, if_false]
-        refine Ev.mk_ok' nB i ⟨S, trk⟩ acc.reverse rfl (fun n hn => ?_)
+        refine EvRel.mk_ok' nB i ⟨S, trk⟩ acc.reverse rfl (fun n hn => ?_)
         obtain ⟨k, hk⟩ := hsucc n hn
         show repLoop (U n) min (some idx) (B n) idx i ⟨S, trk⟩ acc = _
         rw [hk]
@@ -225,7 +314,7 @@ theorem repLoop_sim {α} (U : Nat → Nat → Inp → M → R α) (u : Nat → I
         simp only []
         by_cases hlt : idx < min
         · simp only [hlt, if_true]
-          refine Ev.mk_fail (n1 + nB) { m1 with stk := S } (fun n hn => ?_)
+          refine EvRel.mk_fail (n1 + nB) { m1 with stk := S } (fun n hn => ?_)
           obtain ⟨k, hk⟩ := hsucc n (by omega)
           show repLoop (U n) min mx (B n) idx i ⟨S, trk⟩ acc = _
           rw [hk]
@@ -233,7 +322,7 @@ theorem repLoop_sim {α} (U : Nat → Nat → Inp → M → R α) (u : Nat → I
           rw [h1 n (by omega)]
           simp only [restoreOnNone, hlt, if_true]
         · simp only [hlt, if_false]
-          refine Ev.mk_ok' (n1 + nB) i { m1 with stk := S } acc.reverse rfl (fun n hn => ?_)
+          refine EvRel.mk_ok' (n1 + nB) i { m1 with stk := S } acc.reverse rfl (fun n hn => ?_)
           obtain ⟨k, hk⟩ := hsucc n (by omega)
           show repLoop (U n) min mx (B n) idx i ⟨S, trk⟩ acc = _
           rw [hk]
